@@ -19,6 +19,12 @@
 (*   SetSNI(L)       the server_name extension for a name of L bytes       *)
 (*                   (ApplyConfig: SNIExtension.ServerName)                *)
 (*   ApplyPadding    paddingExt.Update(u) (u_conn.go:620)                  *)
+(*   Reassemble(d)   the same UConn marshals its hello again after an edit *)
+(*                   that changes the unpadded length by d: SetSNI to a    *)
+(*                   shorter/longer name + MarshalClientHello, or the      *)
+(*                   second ClientHello after a HelloRetryRequest (one     *)
+(*                   key share of the requested group instead of the       *)
+(*                   offered ones); the policy is applied afresh           *)
 (*   Refingerprint   the padded hello is captured and fingerprinted:       *)
 (*                   the policy becomes PadToLen(total)                    *)
 (* The module is bound to the code by Padding_MC (scenarios) and           *)
@@ -92,6 +98,12 @@ ApplyPadding ==
   /\ phase' = "padded"
   /\ pad' = PolicyBody(policy, u)
   /\ UNCHANGED <<u, policy, cap>>
+
+\* the hello is marshaled again by the same UConn with an unpadded length changed by delta (same declared policy)
+Reassemble(delta) ==
+  /\ phase = "padded" /\ cap = 0 /\ u + delta >= 0
+  /\ phase' = "assembling" /\ u' = u + delta /\ pad' = NoPad
+  /\ UNCHANGED <<policy, cap>>
 
 \* a capture whose padding extension has a body of p bytes (any style, e.g. a browser that is not BoringSSL)
 CaptureWith(p) ==
